@@ -26,6 +26,10 @@ def spec_value(v):
         return "".join(chr(c) for c in v)
     if isinstance(v, dict) and set(v) == {"n", "d"}:
         return Fraction(v["n"], v["d"])
+    if isinstance(v, dict) and set(v) == {"y", "m", "d"}:
+        return datetime.date(v["y"], v["m"], v["d"])
+    if isinstance(v, dict) and "us" in v:
+        return datetime.datetime(v["y"], v["m"], v["d"], v["H"], v["M"], v["S"], v["us"])
     return v
 
 
@@ -66,6 +70,12 @@ def canon(v, ty=None):
             return ("?", repr(v))
     if ty == "str":
         return ("s", v) if isinstance(v, str) else ("?", repr(v))
+    if ty in ("date", "datetime"):
+        if isinstance(v, datetime.datetime):
+            return ("d", v.isoformat()) if ty == "datetime" else ("?", repr(v))
+        if isinstance(v, datetime.date):
+            return ("d", v.isoformat()) if ty == "date" else ("?", repr(v))
+        return ("?", repr(v))
     # untyped: structural
     if isinstance(v, bool):
         return ("b", v)
@@ -170,6 +180,8 @@ def pl_family(dtype) -> str:
             return fam
     if s.startswith("Null"):
         return "null"
+    if s.startswith("Datetime"):
+        return "datetime"
     if s.startswith("Date"):
         return "date"
     return s
